@@ -177,7 +177,8 @@ class Tokenizer:
 
     def syntax_error(self, message: str, tok: TokenInfo) -> SyntaxError:
         """A located SyntaxError for problems found while capturing raw macro text."""
-        details = (self._path or "<unknown>", tok.start[0], tok.start[1] + 1, tok.line, tok.end[0], tok.end[1] + 1)
+        line = tok.line or self.get_lines([tok.start[0]])[0]  # ENDMARKER carries no line text
+        details = (self._path or "<unknown>", tok.start[0], tok.start[1] + 1, line, tok.end[0], tok.end[1] + 1)
         return SyntaxError(message, details)
 
     def diagnose(self) -> TokenInfo:
